@@ -144,6 +144,12 @@ func tieHistory(rng *rand.Rand, nchildren, nversions int, commit bool) *annot.In
 				t = t.Add(time.Second)
 			} // else: next version in the same second
 		}
+		if rng.Intn(3) == 0 && len(h.Versions) >= 4 {
+			// clock skew: a version stamped a few seconds BEFORE its predecessor (still after the way)
+			k := 2 + rng.Intn(len(h.Versions)-2)
+			ts, com := mk(h.Versions[k-1].Timestamp.Add(-time.Duration(1+rng.Intn(5)) * time.Second))
+			h.Versions[k].Timestamp, h.Versions[k].Committed = ts, com
+		}
 		in.Hists = append(in.Hists, h)
 	}
 	if rng.Intn(2) == 0 && nchildren > 1 { // a child repeated in the parent
@@ -237,6 +243,75 @@ func seqCase(w *wire.Writer, rng *rand.Rand, small, big *annot.Input, nruns int)
 	return c
 }
 
+// clockCase: the result must not depend on the wall clock.  A node version is stamped a moment
+// AHEAD of the clock of this machine; half of the runs happen before that instant, half after it.
+// (The stamp is taken from time.Now(): this one class is not reproducible from the seed alone.)
+func clockCase(w *wire.Writer, nruns int, commit bool) *wire.Case {
+	stamp := time.Now().Add(300 * time.Millisecond).Truncate(time.Millisecond)
+	base := stamp.Add(-48 * time.Hour)
+	mk := func(t time.Time) (time.Time, *time.Time) {
+		if commit {
+			c := t
+			return t, &c
+		}
+		return t, nil
+	}
+	in := &annot.Input{Threshold: 30 * time.Minute, Regime: "commit"}
+	if !commit {
+		in.Regime = "nocommit"
+	}
+	fid := osm.NodeID(100).FeatureID()
+	pts, pcom := mk(base.Add(time.Hour))
+	in.Parents = []annot.Parent{{Changeset: 1, Visible: true, Timestamp: pts, Committed: pcom, Refs: []annot.Ref{{FID: fid}}}}
+	h := annot.Hist{FID: fid}
+	for v, t := range []time.Time{base, base.Add(2 * time.Hour), stamp, time.Date(2100, 1, 1, 0, 0, 0, 0, time.UTC)} {
+		ts, com := mk(t)
+		h.Versions = append(h.Versions, annot.Hver{Version: v + 1, Changeset: int64(10 + v), Timestamp: ts, Committed: com, Lat: float64(v), Lon: 1, Visible: true})
+	}
+	in.Hists = []annot.Hist{h}
+	c, _ := multiCase(w, in, nruns, "clock", func(r int) *annot.Outcome {
+		if r == nruns/2 {
+			if d := time.Until(stamp.Add(60 * time.Millisecond)); d > 0 {
+				time.Sleep(d)
+			}
+		}
+		return in.Run()
+	}, map[string]interface{}{"sequence": fmt.Sprintf("node version 3 is stamped %s, about 0.3 s ahead of the clock when the case was built; runs 0..%d happen before that instant, the others after it; version 4 is dated 2100", stamp.UTC().Format(time.RFC3339Nano), nruns/2-1)})
+	return c
+}
+
+// optSeqCase: options must not leak from one call into the next.  The input (default options: it
+// must fail, a child has no history / no visible version) is annotated before and after ONE call
+// on another input that passes IgnoreMissingChildren, IgnoreInconsistency, Threshold(0) and a
+// ChildFilter.
+func optSeqCase(w *wire.Writer, nruns int, kind int) *wire.Case {
+	t0 := osm.CommitInfoStart.Add(-900 * 24 * time.Hour)
+	good, bad := osm.NodeID(1).FeatureID(), osm.NodeID(2).FeatureID()
+	b := &annot.Input{Threshold: 30 * time.Minute, Regime: "old"}
+	b.Parents = []annot.Parent{{Changeset: 7, Visible: true, Timestamp: t0.Add(time.Hour), Refs: []annot.Ref{{FID: good}, {FID: bad}}}}
+	b.Hists = []annot.Hist{{FID: good, Versions: []annot.Hver{
+		{Version: 1, Changeset: 2, Timestamp: t0, Lat: 1, Lon: 1, Visible: true},
+		// ten minutes after the way, in its changeset: selected only with the default threshold
+		{Version: 2, Changeset: 7, Timestamp: t0.Add(70 * time.Minute), Lat: 2, Lon: 2, Visible: true}}}}
+	switch kind {
+	case 0: // bad has no history: NoHistoryError expected
+	case 1: // bad has only a deleted version: NoVisibleChildError expected
+		b.Hists = append(b.Hists, annot.Hist{FID: bad, Versions: []annot.Hver{{Version: 1, Changeset: 3, Timestamp: t0, Visible: false}}})
+	default: // healthy: the annotation of node 1 depends on the default threshold
+		b.Hists = append(b.Hists, annot.Hist{FID: bad, Versions: []annot.Hver{{Version: 1, Changeset: 3, Timestamp: t0, Lat: 5, Lon: 5, Visible: true}}})
+	}
+	a := &annot.Input{Threshold: 0, IgnoreIncons: true, IgnoreMissing: true, HasFilter: true, Filter: []osm.FeatureID{good}, Regime: "old",
+		Parents: b.Parents, Hists: b.Hists[:1]}
+	c, _ := multiCase(w, b, nruns, "option_sequence", func(r int) *annot.Outcome {
+		if r == nruns/2 {
+			a.Run()
+		}
+		return b.Run()
+	}, map[string]interface{}{"sequence": fmt.Sprintf("runs 0..%d of this input (no options passed: defaults), then ONE call on another input with IgnoreMissingChildren(true), IgnoreInconsistency(true), Threshold(0) and a ChildFilter, then the remaining runs of this input", nruns/2-1),
+		"other_call": a.Desc()})
+	return c
+}
+
 // reannCase: incremental use. The parents are annotated in full, then the SAME objects are
 // re-annotated with a ChildFilter for a batch of children that got a new version. The Coq model
 // receives the input of the second call (references as the first call left them).
@@ -279,7 +354,7 @@ func main() {
 	a := wire.ParseArgs()
 	rng := wire.Rng(a.Seed)
 	w := wire.NewWriter("C12", a.Seed, a.Tier)
-	w.Rule = "ANN: an edit history annotated 8 (quick) / 24 (thorough) times on deep copies through annotate.Ways / annotate.Relations; classes: sequence (a small input annotated before and after an unrelated call with >= 64 parent versions in the same process), big, reannotate (full annotation, then filtered re-annotation of the same already annotated objects with ChildFilter; the model gets the second call's input), corpus (minimised past failures), ties (13-40 updates per parent, versions of one child in the same second, children repeated), random histories (all regimes, errors, options). SORT: osm.Updates.SortByIndex on 0-40 updates with equal (index, timestamp) groups. Equal instants are represented with different *time.Location values. Non-trivial = at least one update produced (ANN) or >= 2 updates (SORT); distinct = distinct token streams."
+	w.Rule = "ANN: an edit history annotated 8 (quick) / 24 (thorough) times on deep copies through annotate.Ways / annotate.Relations; classes: option_sequence (an input with default options annotated before and after ONE call that passes every option), clock (a version stamped a moment ahead of the wall clock, half of the runs before and half after that instant; versions dated 2100), sequence (a small input annotated before and after an unrelated call with >= 64 parent versions in the same process), big, reannotate (full annotation, then filtered re-annotation of the same already annotated objects with ChildFilter; the model gets the second call's input), corpus (minimised past failures), ties (13-40 updates per parent, versions of one child in the same second, children repeated, versions stamped a few seconds before their predecessor), random histories (all regimes, errors, options). SORT: osm.Updates.SortByIndex on 0-40 updates with equal (index, timestamp) groups. Equal instants are represented with different *time.Location values. Non-trivial = at least one update produced (ANN) or >= 2 updates (SORT); distinct = distinct token streams."
 	nruns, nties, nrand, nsort, nreann := 8, 70, 100, 120, 50
 	if a.Tier == "thorough" {
 		nruns, nties, nrand, nsort, nreann = 24, 1200, 2500, 2500, 1200
@@ -289,6 +364,10 @@ func main() {
 	nrand = int(float64(nrand) * a.Scale)
 	nsort = int(float64(nsort) * a.Scale)
 
+	// option sequences first of all: no call of this process has passed an option yet
+	for kind := 0; kind < 3; kind++ {
+		w.Add(optSeqCase(w, nruns, kind))
+	}
 	// sequences first, while the process is fresh: a small input before/after an unrelated big call
 	for k := 0; k < 2; k++ {
 		small := tieHistory(wire.Rng(int64(40+k)), 2, 4, k == 0)
@@ -296,6 +375,9 @@ func main() {
 		w.Add(seqCase(w, rng, small, big, nruns))
 		bc, _ := annCase(w, big, 2, "big")
 		w.Add(bc)
+	}
+	for _, commit := range []bool{true, false} {
+		w.Add(clockCase(w, nruns, commit))
 	}
 	// corpus: the minimised failing inputs found on the pinned snapshot (see known_findings.d/C12.json)
 	crng := wire.Rng(12)
